@@ -10,8 +10,8 @@ used = {}
 for d in sorted(glob.glob('/verif/seeded/*/meta.json')):
     m = json.load(open(d))
     used.setdefault(m['property'], []).append(f"{m['name'].replace('-', ' ')} ({m['needs_to_manifest'][:110]})")
-GROUPS = [("A", "C01", "C13"), ("B", "C02", "C19"), ("C", "C03", "C18"), ("D", "C04", "C16"), ("E", "C05", "C20"),
-          ("F", "C06", "C10"), ("G", "C07", "C17"), ("H", "C08", "C14"), ("I", "C09", "C12"), ("J", "C11", "C15")]
+GROUPS = [("A", "C01", "C16"), ("B", "C02", "C17"), ("C", "C03", "C20"), ("D", "C04", "C19"), ("E", "C05", "C18"),
+          ("F", "C06", "C15"), ("G", "C07", "C14"), ("H", "C08", "C13"), ("I", "C09", "C11"), ("J", "C10", "C12")]
 ROUND_NOTE = sys.argv[3] if len(sys.argv) > 3 else ""
 HEAD = open('/verif/tools/SEED_PROMPT_HEAD.txt').read()
 for g, a, b in GROUPS:
